@@ -764,6 +764,17 @@ def grammar_pool(rng: random.Random, n_random: int, n_builtin: int, bundled: boo
                 calls.append((start, s, 0))
             calls.append((start, "".join(rng.choice("a1 -\nZ_") for _ in range(rng.randint(0, 4))), 0))
         pool.append({"name": "builtin-heavy", "text": G.show_grammar(rules), "calls": calls})
+    # sibling grammars: the same rule names with and without implicit trivia / atomic modifiers, around the
+    # shapes the optimizer rewrites (anything an Optimizer or a cache remembers *by rule name* shows here)
+    for j in range(max(2, n_random // 3)):
+        base = G.gen_skip_template(rng) if j % 2 == 0 else G.gen_squash_template(rng)
+        va = {n: (("@" if n == "r" else m), e) for n, (m, e) in base.items() if n != "WHITESPACE"}
+        vb = {n: (("" if n == "r" else m), e) for n, (m, e) in base.items() if n != "WHITESPACE"}
+        vb["WHITESPACE"] = ("_", ("str", " "))
+        texts_ = ["".join(rng.choice("abc ") for _ in range(rng.randint(0, 6))) for _ in range(10)] + ["a ]", " ab", "ab ba", "a b c"]
+        for tag, v in (("a", va), ("b", vb)):
+            if G.well_formed(v):
+                pool.append({"name": f"sibling:{j}:{tag}", "text": G.show_grammar(v), "calls": [("r", t, 0) for t in texts_]})
     if bundled:
         sc = E.suite_cases()
         for gfile, gtext in sorted(E.bundled_grammars().items()):
@@ -792,6 +803,13 @@ def rand_opt(rng: random.Random):
 def gen_history(rng: random.Random, pool: list[dict], max_steps: int) -> dict:
     """texts + steps.  Objects are referred to by name, so that steps can be deleted when shrinking."""
     gs = rng.sample(pool, min(len(pool), rng.choice([1, 2, 2, 3])))
+    sibs = sorted({g["name"].rsplit(":", 1)[0] for g in pool if g["name"].startswith("sibling:")})
+    if sibs and rng.random() < 0.35:
+        pick = rng.choice(sibs)
+        pair = [g for g in pool if g["name"].rsplit(":", 1)[0] == pick]
+        if len(pair) == 2:
+            rng.shuffle(pair)
+            gs = pair + gs[:1]
     if rng.random() < 0.5 and not any(g["name"] == "builtin-heavy" for g in gs):
         heavy = [g for g in pool if g["name"] == "builtin-heavy"]
         if heavy:
@@ -1116,6 +1134,13 @@ def correspondence(hists: list[dict], results: list[dict], max_ups: int) -> tupl
 
 def gen_thread_job(rng: random.Random, pool: list[dict], thorough: bool, idx: int) -> dict:
     gs = rng.sample(pool, min(len(pool), rng.choice([1, 2, 2, 3])))
+    sibs = sorted({g["name"].rsplit(":", 1)[0] for g in pool if g["name"].startswith("sibling:")})
+    if sibs and rng.random() < 0.35:
+        pick = rng.choice(sibs)
+        pair = [g for g in pool if g["name"].rsplit(":", 1)[0] == pick]
+        if len(pair) == 2:
+            rng.shuffle(pair)
+            gs = pair + gs[:1]
     texts = [g["text"] for g in gs]
     objects, calls = [], []
     for gi, g in enumerate(gs):
